@@ -128,7 +128,21 @@ def canon(rec, amap):
     s = json.dumps(rec)
     for k in sorted(amap, key=len, reverse=True):
         s = s.replace(k, amap[k])
-    return json.loads(s)
+    return _resort_candidates(json.loads(s))
+
+
+def _resort_candidates(x):
+    """'<a|b|subquery#..>.col': the tool sorts candidate owners by printed name; with anonymous names canonicalised the order is re-established"""
+    if isinstance(x, str):
+        if x.startswith("<") and "|" in x and "subquery#" in x and ">." in x:
+            cands, _, col = x[1:].rpartition(">.")
+            return "<" + "|".join(sorted(cands.split("|"))) + ">." + col
+        return x
+    if isinstance(x, list):
+        return [_resort_candidates(y) for y in x]
+    if isinstance(x, dict):
+        return {k: _resort_candidates(v) for k, v in x.items()}
+    return x
 
 
 def _canon_cyto(items):
